@@ -15,23 +15,25 @@ def rankB (p s : Int) (w : Bool) : Nat :=
 
 theorem rankF_decr {c : Cache} {p s : Int} {w : Bool} {p' s' : Int} {w' : Bool} (hp : PgOk p)
     (h : SkipSpecF c p (s + 1) w (some (p', s', w'))) : rankF p' s' w' < rankF p s w := by
-  obtain ⟨hp', hin, hd⟩ := h
-  have hb := inRange_bounds hin
+  obtain ⟨hp', hld, hd⟩ := h
+  have hb := landed_bounds hld
   unfold PgOk at hp hp'
   unfold rankF W
-  rcases hd with ⟨hw, hpp, hss⟩ | ⟨_, hw, hlt, _, _⟩ | ⟨_, hw, hw', _, _, _⟩
+  rcases hd with ⟨hw, hpp, hss, _⟩ | ⟨hw, hpp, _, hlt, hss⟩ | ⟨_, hw, hlt, _, _⟩ | ⟨_, hw, hw', _, _, _⟩
   · subst hw hpp hss; cases w' <;> simp <;> omega
+  · subst hw hpp; cases w' <;> simp <;> omega
   · subst hw; cases w' <;> simp <;> omega
   · subst hw hw'; simp; omega
 
 theorem rankB_decr {c : Cache} {p s : Int} {w : Bool} {p' s' : Int} {w' : Bool} (hp : PgOk p)
     (h : SkipSpecB c p (s + -1) w (some (p', s', w'))) : rankB p' s' w' < rankB p s w := by
-  obtain ⟨hp', hin, hd⟩ := h
-  have hb := inRange_bounds hin
+  obtain ⟨hp', hld, hd⟩ := h
+  have hb := landed_bounds hld
   unfold PgOk at hp hp'
   unfold rankB W
-  rcases hd with ⟨hw, hpp, hss⟩ | ⟨_, hw, hlt, _, _⟩ | ⟨_, hw, hw', _, _, _⟩
+  rcases hd with ⟨hw, hpp, hss, _⟩ | ⟨hw, hpp, _, hlt, hss⟩ | ⟨_, hw, hlt, _, _⟩ | ⟨_, hw, hw', _, _, _⟩
   · subst hw hpp hss; cases w' <;> simp <;> omega
+  · subst hw hpp; cases w' <;> simp <;> omega
   · subst hw; cases w' <;> simp <;> omega
   · subst hw hw'; simp; omega
 
@@ -59,7 +61,7 @@ theorem loop_succ {σ : Type} (cb : Callback σ) (dir : Int) (n : Nat) (c : Cach
          | none => ⟨.outOfFuel, s1, c⟩
          | some none => ⟨.ret (-1), s1, c⟩
          | some (some (p', s', w')) =>
-           match getPage c p' s' with
+           match getExact c p' s' with
            | (cp', c') => loop cb dir n c' s1 p' s' w' cp') := by
   cases cp <;> rfl
 
@@ -84,7 +86,7 @@ theorem loop_fwd_terminates {σ : Type} (cb : Callback σ) : ∀ (n : Nat) (c : 
       | some t =>
         obtain ⟨p', s', w'⟩ := t
         simp only
-        generalize getPage c p' s' = g
+        generalize getExact c p' s' = g
         obtain ⟨cp', c'⟩ := g
         simp only
         have hd := rankF_decr hp hspec
@@ -111,7 +113,7 @@ theorem loop_bwd_terminates {σ : Type} (cb : Callback σ) : ∀ (n : Nat) (c : 
       | some t =>
         obtain ⟨p', s', w'⟩ := t
         simp only
-        generalize getPage c p' s' = g
+        generalize getExact c p' s' = g
         obtain ⟨cp', c'⟩ := g
         simp only
         have hd := rankB_decr hp hspec
@@ -140,7 +142,7 @@ theorem loop_no_assert {σ : Type} (cb : Callback σ) (dir : Int) : ∀ (n : Nat
         | some t =>
           obtain ⟨p', s', w'⟩ := t
           simp only
-          generalize getPage c p' s' = g
+          generalize getExact c p' s' = g
           obtain ⟨cp', c'⟩ := g
           exact ih c' s1 p' s' w' cp'
 
